@@ -16,7 +16,7 @@
    1680 for the 3-call flows); requests that are refused make fewer calls and simply drop out.
    Beyond the bound: serial_K_once holds for ARBITRARY worlds, stores with unique index values and
    request pairs. *)
-From Verif Require Import Base Scope Types Prog Pop Token Authorize System Config Run Monitors Race RaceUri Fresh OneShot C15Sweeps C15UriDefs C15UriSweeps C15UriProofs C15Proofs.
+From Verif Require Import Base Scope Types Prog Pop Token Authorize System Config Run Monitors Race RaceUri RaceStrict Fresh OneShot C15Sweeps C15UriDefs C15UriSweeps C15UriProofs C15Proofs C15StrictSweeps C15StrictProofs.
 Local Open Scope nat_scope.
 
 (* ---- the schedules quantified over are all of them ---- *)
@@ -296,3 +296,99 @@ Example serial_code_once_applies :
   | _ => False
   end.
 Proof. exact serial_code_once_applies_lemma. Qed.
+
+(* ================================================================================================== *)
+(* ---- STRICT storage (Model/RaceStrict.v exec_strict): a Delete / DeleteByX of something absent is an
+        error - a legitimate embedder storage (rows-affected check, compare-and-delete).  There the delete
+        is an atomic take and the handlers, which return the error of a failed DeleteAuthnSession, let
+        EXACTLY ONE of the racing requests win wherever the consume is the delete: authorization code and
+        CIBA auth_req_id, every interleaving of 2 and of 3 requests.  (A handler that drops that error -
+        invisible on the lenient storages - yields two winners on the schedule lookup, lookup, delete, delete;
+        suite c15 runs every schedule on the real provider over a strict storage and compares.) ---- *)
+Theorem race_code_strict_store_one_winner : forall rotation k sched, k = 2 \/ k = 3 ->
+  (let su := setup_of (scn_code rotation) in
+   In sched (race_schedules su k) -> successes_x exec_strict su k sched = 1) /\
+  (let su := setup_of (scn_ciba rotation) in
+   In sched (race_schedules su k) -> successes_x exec_strict su k sched = 1).
+Proof. exact strict_one_winner_lemma. Qed.
+Print Assumptions race_code_strict_store_one_winner.
+
+(* where the consume is an overwriting SAVE (request_uri with a code or a login page, rotated refresh token) the
+   strict storage changes nothing: winners = lookups scheduled before the first consume, as on the lenient one *)
+Theorem race_strict_store_saves_unchanged : forall rotation sched,
+  (let su := setup_of (scn_par rotation) in
+   In sched (race_schedules su 2) -> successes_x exec_strict su 2 sched = race_window_count su 2 sched) /\
+  (let su := setup_of (scn_par_page rotation) in
+   In sched (race_schedules su 2) -> successes_x exec_strict su 2 sched = race_window_count su 2 sched) /\
+  (let su := setup_of (scn_refresh true) in
+   In sched (race_schedules su 2) -> successes_x exec_strict su 2 sched = race_window_count su 2 sched).
+Proof. exact strict_saves_lemma. Qed.
+Print Assumptions race_strict_store_saves_unchanged.
+
+(* request_uri x response type on the strict storage: one winner when no code is issued (the consume is the
+   Delete: id_token, token, id_token token), the lenient count when one is (the consume is the Save) *)
+Theorem race_request_uri_strict_store : forall rt rotation sched, In rt ru_resp_types ->
+  let su := setup_of (scn_uri rt rotation) in
+  In sched (race_schedules su 2) ->
+  successes_x exec_strict su 2 sched = if rt_contains rt "code" then race_window_count su 2 sched else 1.
+Proof. exact strict_uri_lemma. Qed.
+Print Assumptions race_request_uri_strict_store.
+
+(* the interpreters of Model/RaceStrict.v over the lenient storage are those of Prog.v / Race.v *)
+Theorem race_lenient_is_run_il : forall su k sched (ps : list (prog obs)) st,
+  run_il_x exec sched ps st = run_il sched ps st /\ successes_x exec su k sched = successes su k sched.
+Proof. intros. split; [apply run_il_x_exec|apply successes_x_exec]. Qed.
+Print Assumptions race_lenient_is_run_il.
+
+(* the strict storage matters: a schedule on which two requests win on the lenient storage and one on the strict *)
+Example strict_store_matters : exists sched,
+  let su := setup_of (scn_code true) in
+  In sched (race_schedules su 2) /\ successes_x exec su 2 sched = 2 /\ successes_x exec_strict su 2 sched = 1.
+Proof. exists [0; 0; 1; 1; 0; 0; 1; 1]. vm_compute. repeat split; auto 60. Qed.
+
+(* ---- END TO END: the racing /authorize requests that present one request_uri and win are each handed a code
+        (or a callback id); on the unchanged flow every one of them continues under the ID of the pushed session
+        (storage calls  CGet AByPar CGet ASave [GSave]: no delete, no fresh id), so their saves overwrite one
+        another and, whatever the schedule, the storage semantics (lenient / strict) and the order in which the
+        artifacts are used afterwards (RaceStrict.e2e_outcomes: every callback id continued, every code redeemed),
+        EXACTLY ONE token response comes out of the request_uri, and exactly one of the artifacts handed out still
+        indexes a session in the store the race leaves behind.  (K3 - two requests START an authorization - is
+        thereby confined: it never yields two token responses through codes; the access tokens an implicit /
+        hybrid response type issues on the spot are counted by race_request_uri_response_types_count.) ---- *)
+Theorem race_request_uri_one_token_response : forall rotation sched strict rev_order,
+  (let su := setup_of (scn_par rotation) in
+   In sched (race_schedules su 2) ->
+   e2e_tokens (sem_of strict) rev_order su 2 sched = 1 /\ live_artifacts (sem_of strict) su 2 sched = 1) /\
+  (let su := setup_of (scn_par_page rotation) in
+   In sched (race_schedules su 2) ->
+   e2e_tokens (sem_of strict) rev_order su 2 sched = 1 /\ live_artifacts (sem_of strict) su 2 sched = 1).
+Proof. exact e2e_par_lemma. Qed.
+Print Assumptions race_request_uri_one_token_response.
+
+(* three racing requests (34650 / 1680 interleavings), rotation on *)
+Theorem race_request_uri_one_token_response_three : forall sched strict rev_order,
+  (let su := setup_of (scn_par true) in
+   In sched (race_schedules su 3) ->
+   e2e_tokens (sem_of strict) rev_order su 3 sched = 1 /\ live_artifacts (sem_of strict) su 3 sched = 1) /\
+  (let su := setup_of (scn_par_page true) in
+   In sched (race_schedules su 3) ->
+   e2e_tokens (sem_of strict) rev_order su 3 sched = 1 /\ live_artifacts (sem_of strict) su 3 sched = 1).
+Proof. exact e2e_par_3_lemma. Qed.
+Print Assumptions race_request_uri_one_token_response_three.
+
+(* every response type: one token response through the codes when the type has `code`, none otherwise *)
+Theorem race_request_uri_response_types_one_token_response : forall rt rotation sched strict rev_order,
+  In rt ru_resp_types ->
+  let su := setup_of (scn_uri rt rotation) in
+  In sched (race_schedules su 2) ->
+  e2e_tokens (sem_of strict) rev_order su 2 sched = (if rt_contains rt "code" then 1 else 0) /\
+  live_artifacts (sem_of strict) su 2 sched = (if rt_contains rt "code" then 1 else 0).
+Proof. exact e2e_uri_lemma. Qed.
+Print Assumptions race_request_uri_response_types_one_token_response.
+
+(* non-vacuity: on an overlapping schedule BOTH racing requests are handed a code, one of the two is redeemable *)
+Example e2e_overlap_two_codes_one_redeemable :
+  let su := setup_of (scn_par true) in let sched := [0; 0; 1; 1; 0; 0; 1; 1] in
+  In sched (race_schedules su 2) /\ successes su 2 sched = 2 /\
+  e2e_outcomes exec false su 2 sched = [false; true] /\ e2e_outcomes exec true su 2 sched = [false; true].
+Proof. vm_compute. repeat split; auto 60. Qed.
